@@ -105,6 +105,18 @@ Definition ensure (fetch : Z -> Z -> list chg) (s : store) (f t : Z) : option (s
   else let miss := calc_missing s f t in
        Some (fold_left (ensure_step fetch) miss s, miss).
 
+(* EnsureChanges with a fetcher that fails on its (k+1)-th call: the missing ranges before the
+   failing one were fetched, stored and marked; the failing one and those after it were not
+   (the loop returns the error).  Returns the store, the ranges asked for (the failing one
+   included) and whether the failure was reached. *)
+Definition ensure_failing (fetch : Z -> Z -> list chg) (s : store) (f t : Z) (k : nat)
+  : option (store * list range * bool) :=
+  if t <? f then None
+  else let miss := calc_missing s f t in
+       if (k <? length miss)%nat
+       then Some (fold_left (ensure_step fetch) (firstn k miss) s, firstn (S k) miss, true)
+       else Some (fold_left (ensure_step fetch) miss s, miss, false).
+
 Definition expand (s : store) (r : range) : store :=
   if snd r <? fst r then s else mkStore (merge_adjacent (ranges s ++ [r])) (items s).
 
